@@ -27,15 +27,14 @@ func main() {
 	only := os.Getenv("C05_ONLY") // debugging aid: comma list of sections
 	want := func(s string) bool { return only == "" || strings.Contains(","+only+",", ","+s+",") }
 
+	t0 := time.Now()
 	tc, err := setupToolchain(r.Repo)
 	if err != nil {
 		fmt.Fprintln(os.Stderr, "c05: toolchain:", err)
 		os.Exit(2)
 	}
 	defer tc.cleanup()
-	defer stdCleanup()
 
-	t0 := time.Now()
 	lap := func(what string) {
 		r.Extra("seconds:"+what, time.Since(t0).Seconds())
 		t0 = time.Now()
